@@ -31,12 +31,13 @@ THEOREMS = [
     'AbacusVerif.Binning.kmu_counts_exact',
     'AbacusVerif.Binning.kppi_counts_exact',
     'AbacusVerif.Binning.kmu_means',
+    'AbacusVerif.Binning.kppi_means',
     'AbacusVerif.Binning.monopole_is_mu_average',
     'AbacusVerif.Binning.legendre_table',
     'AbacusVerif.Binning.Pn_zero',
     'AbacusVerif.Binning.Pn_two',
     'AbacusVerif.Binning.Pn_four',
-    'AbacusVerif.Binning.kmu_pole_sums_partial',
+    'AbacusVerif.Binning.kmu_pole_means',
 ]
 DRIVER = 'drv_c08'
 RULE = ('every mesh size n in 1..12 (quick) / 1..24 (thorough), odd and even, x dtype float32/float64 x k-edge families '
@@ -437,7 +438,10 @@ def fault_cases(ctx):
     for n, mu in ((3, [0.0, 0.5]), (4, [0.0, 0.3, 0.6]), (6, [0.0, 0.9])):
         out.append(dict(kind='kmu', n=n, L=2 * np.pi, kedges=[0.0, 1.0, 4.0], dtype='f8', nthread=2,
                         assign=[i % 2 for i in range(n)], mesh_seed=5, kfam='fault-mu-short', muedges=mu, mufam='short',
-                        poles=[], expect_fault=True))
+                        poles=[], expect_fault='oob'))
+    # no k edges at all: Nk = -1, np.zeros raises ValueError (model: rejected)
+    out.append(dict(kind='kmu', n=2, L=2 * np.pi, kedges=[], dtype='f8', nthread=1, assign=[0, 0], mesh_seed=5,
+                    kfam='fault-no-edges', muedges=[0.0, 1.0], mufam='lin', poles=[], expect_fault='rejected'))
     return out
 
 
@@ -832,9 +836,10 @@ def process(ctx, ps, cases):
             if needs_boundscheck(c):
                 ctx.count('range-ends-below-largest-mode')
             if c.get('expect_fault'):
-                ctx.case(dict(kind=c['kind'], n=c['n'], muedges=c['muedges'], fault=True), nontrivial=True)
-                if r.get('err') != 'oob' or m.get('err') != 'oob':
-                    ctx.disagree('mu edges short of 1: model and bounds-checked kernel must both run past the mu edges', c,
+                ctx.case(dict(kind=c['kind'], n=c['n'], muedges=c['muedges'], kedges=c['kedges'], fault=c['expect_fault']), nontrivial=True)
+                if r.get('err') != c['expect_fault'] or m.get('err') != c['expect_fault']:
+                    ctx.disagree('precondition violated (mu edges short of 1: search runs past the mu edges; no k edges: '
+                                 'ValueError): model and bounds-checked kernel must fault alike', c,
                                  m.get('err', 'ok'), r.get('err', 'ok'))
                 continue
             run_one(ctx, ps, chk, c, m, r)
